@@ -4,6 +4,6 @@
 use nvh::e2e::*;
 
 fn main() {
-    let opts = GenOpts { limited_forward: std::env::var("NVH_E2E_LIMFWD").is_ok(), ..GenOpts::default() };
+    let opts = GenOpts { limited_forward: std::env::var("NVH_E2E_NO_LIMFWD").is_err(), ..GenOpts::default() };
     run_main_par(move |seed, n| gen_cases(seed, n, opts), exec_case, 6);
 }
